@@ -16,6 +16,7 @@
    has seen it closed (k < polls s).  ECancel is the model's error object for
    fmt.Errorf("%w: %w", ErrExecution, ctx.Err()); as a result it carries no items
    (QErr / FErr / BErr have none).
+   (1) Never mistaken for a result.
    - [C20_call_never_mistakes_cancellation]: the invariant, for EVERY call of the
      executor (item requests, the .** loop, predicates): if at the return of a call
      the context has been seen done, then either the call did not poll at all, or
@@ -30,10 +31,33 @@
    - [C20_*_cancelled_from_start]: k = 0 (done before execution): always the
      cancellation error, because every entry point polls at least once
      ([C20_every_run_polls]).  (glue: proofs/PropGlue.v)
+   (2) Honoured at EVERY step (proofs/CancelMore.v, CancelPrefix.v).  The run
+     cancelled at poll k and the uncancelled run do the same work up to poll k
+     ("prefix determinism", [C20_prefix_run], [C20_prefix_run_relational]: same fuel,
+     same initial state, no side condition).  Hence the quantifier of the property:
+     [C20_query_cancelled_at_every_poll] and its First / Exists / Match /
+     ExistsOrMatch siblings — if the uncancelled run returns and makes n polls, then
+     for EVERY k < n the run cancelled at the k-th poll returns the cancellation
+     error (with_cancel_o o k, written out below, is o with o_cancel_at := Some k,
+     o_silent untouched); and for k >= n cancelling changes nothing
+     ([C20_query_cancel_after_last_poll]).  [C20_query_cancelled_within] /
+     [C20_query_cancel_beyond] are the same on query(), with the poll count.
+   (3) "After a bounded number of further evaluation steps" (proofs/CancelStop.v):
+     no poll is made after the one that sees the context done.
+     [C20_query_polls_stop]: an entry point makes at most k + 1 polls;
+     [C20_query_cancel_exact]: a run that reaches poll k makes EXACTLY k + 1 polls and
+     returns the cancellation.  For every call of the executor: [C20_polls_bound]
+     (polls at return <= max (polls at entry + 1) (k + 1)), [C20_polls_stop_entered_before]
+     (entered before the cancellation point: no poll after number k),
+     [C20_polls_stop_entered_after] (entered after it: at most one poll, and then the
+     result is the cancellation).  The naive bound max (polls at entry) (k + 1) is
+     false for calls entered after the cancellation point: [C20_polls_stop_refuted].
+     Each poll is one call of executeItemOptUnwrapTarget, so between two polls the
+     work is one node's own (bounded by the fuel bound of C05).
    - [C20_*_returns]: with a cancellation point the entry points still return (no
      fuel exhaustion, no panic) within the fuel bound of C05; hypotheses as in C05
      (members_ok L, inputs_ok (num_ok L), both satisfiable, see props/C05.v).
-   - the class of the cancellation raise site: the raise-site inventory regenerated
+   (4) The class of the cancellation raise site: the raise-site inventory regenerated
      from /repo on every run contains (execution.go, executeItemOptUnwrapTarget,
      ErrExecution) and equals the inventory the model was validated against
      ([C20_cancellation_site_class], [C20_raise_site_classes]): ErrExecution, not
@@ -41,13 +65,11 @@
    Non-vacuity: [C20_cancel_witness] (uncancelled: a result; cancelled at the second
    poll: two polls are made, 1 < 2, and the outcome is the cancellation, verbose and
    silent).
-   Not covered by a theorem: "after a bounded number of further evaluation steps" as a
-   bound on the polls made AFTER the poll that sees the context done (no lemma says
-   that polling stops; what is proved is that the run returns within fuel_for and
-   that its result is the cancellation).  The bound is measured by the correspondence
-   leg: the harness cancels at every k and checks polls <= k + 1 on the
-   implementation and on the model.  That the error wraps the context's own error
-   (Canceled vs DeadlineExceeded) is checked there too: the model has one ECancel.
+   Not covered by a theorem: that the error wraps the context's own error (Canceled
+   vs DeadlineExceeded) — the model has one ECancel; the correspondence leg checks
+   errors.Is on the implementation for both, at every k, silent and verbose, and
+   that the implementation makes the same number of polls as the model.  The
+   after-last-poll statement is given for Query and query() only.
    Known findings naming C20: fixed 6626c63 (is unknown discarded a cancellation:
    cancelling inside ($.a == 1) is unknown returned [true]) and c714021 (a filter
    returned "not found" together with a non-suppressible error); the model
@@ -56,7 +78,7 @@
    cancellation. *)
 From SJ Require Import lib.Base model.Json model.Ast model.ExecLib model.Leaf model.Exec
      proofs.TotalBase proofs.Total gen.RaiseSites model.RaiseExpect proofs.PropGlue.
-From SJ Require proofs.Invariants.
+From SJ Require proofs.Invariants proofs.CancelMore.
 
 (* ---------- the invariant of every call ---------- *)
 Theorem C20_call_never_mistakes_cancellation :
@@ -145,6 +167,183 @@ Theorem C20_eom_cancelled_from_start :
   o_cancel_at o = Some 0%nat -> ExistsOrMatch L fuel p doc o = Ret q -> q = BErr (AErr ECancel).
 Proof. exact eom_cancelled_from_start. Qed.
 Print Assumptions C20_eom_cancelled_from_start.
+
+(* ---------- honoured at every step: prefix determinism ---------- *)
+(* the uncancelled run (environment E0) and the run cancelled at poll k, same fuel, same state *)
+Theorem C20_prefix_run :
+  forall L E0 k fuel r s a0 s0',
+  e_cancel_at E0 = None ->
+  run L E0 fuel r s = Ret (a0, s0') ->
+  ((polls s0' <= k)%nat ->
+   run L (mkenv (e_lax E0) (e_root E0) (e_vars E0) (e_vars_tag E0) (e_useTZ E0) (Some k)) fuel r s
+   = Ret (a0, s0')) /\
+  ((polls s <= k)%nat -> (k < polls s0')%nat ->
+   exists ak sk',
+     run L (mkenv (e_lax E0) (e_root E0) (e_vars E0) (e_vars_tag E0) (e_useTZ E0) (Some k)) fuel r s
+     = Ret (ak, sk') /\ polls sk' = S k /\
+     match ak with
+     | AItem x => r_st x = SFailed /\ r_err x = Some ECancel
+     | ABool p => p_out p = PUnknown /\ p_err p = Some ECancel
+     end).
+Proof. exact CancelMore.prefix_run. Qed.
+Print Assumptions C20_prefix_run.
+
+(* the same for two environments equal but for the cancellation point and two
+   initial states equal field by field *)
+Theorem C20_prefix_run_relational :
+  forall L E0 Ek k fuel r s0 sk a0 s0',
+  (e_lax Ek = e_lax E0 /\ e_root Ek = e_root E0 /\ e_vars Ek = e_vars E0 /\
+   e_vars_tag Ek = e_vars_tag E0 /\ e_useTZ Ek = e_useTZ E0 /\
+   e_cancel_at E0 = None /\ e_cancel_at Ek = Some k) ->
+  (cur s0 = cur sk /\ last_size s0 = last_size sk /\ ign s0 = ign sk /\ verbose s0 = verbose sk /\
+   base_addr s0 = base_addr sk /\ base_id s0 = base_id sk /\ last_id s0 = last_id sk /\
+   polls s0 = polls sk /\ next_tag s0 = next_tag sk) ->
+  run L E0 fuel r s0 = Ret (a0, s0') ->
+  ((polls s0' <= k)%nat ->
+   exists sk', run L Ek fuel r sk = Ret (a0, sk') /\
+     (cur s0' = cur sk' /\ last_size s0' = last_size sk' /\ ign s0' = ign sk' /\ verbose s0' = verbose sk' /\
+      base_addr s0' = base_addr sk' /\ base_id s0' = base_id sk' /\ last_id s0' = last_id sk' /\
+      polls s0' = polls sk' /\ next_tag s0' = next_tag sk')) /\
+  ((k < polls s0')%nat -> (polls s0 <= k)%nat ->
+   exists ak sk', run L Ek fuel r sk = Ret (ak, sk') /\ polls sk' = S k /\
+     match ak with
+     | AItem x => r_st x = SFailed /\ r_err x = Some ECancel
+     | ABool p => p_out p = PUnknown /\ p_err p = Some ECancel
+     end).
+Proof. exact CancelMore.prefix_run_rel. Qed.
+Print Assumptions C20_prefix_run_relational.
+
+(* for EVERY k smaller than the number n of polls of the uncancelled run, the run
+   cancelled at the k-th poll returns the cancellation *)
+Theorem C20_query_cancelled_at_every_poll :
+  forall L fuel p doc o k n q0,
+  o_cancel_at o = None -> Query L fuel p doc o = Ret q0 -> polls_of L fuel p doc o (Some []) = Ret n ->
+  (k < n)%nat ->
+  Query L fuel p doc (mkopts (o_vars o) (o_vars_tag o) (o_silent o) (o_useTZ o) (Some k) (o_next_tag o))
+  = Ret (QErr (AErr ECancel)).
+Proof. exact CancelMore.query_cancel_at_every_poll. Qed.
+Print Assumptions C20_query_cancelled_at_every_poll.
+
+Theorem C20_first_cancelled_at_every_poll :
+  forall L fuel p doc o k n q0,
+  o_cancel_at o = None -> First L fuel p doc o = Ret q0 -> polls_of L fuel p doc o (Some []) = Ret n ->
+  (k < n)%nat ->
+  First L fuel p doc (mkopts (o_vars o) (o_vars_tag o) (o_silent o) (o_useTZ o) (Some k) (o_next_tag o))
+  = Ret (FErr (AErr ECancel)).
+Proof. exact CancelMore.first_cancel_at_every_poll. Qed.
+Print Assumptions C20_first_cancelled_at_every_poll.
+
+Theorem C20_exists_cancelled_at_every_poll :
+  forall L fuel p doc o k n q0,
+  o_cancel_at o = None -> Exists L fuel p doc o = Ret q0 -> polls_of L fuel p doc o None = Ret n ->
+  (k < n)%nat ->
+  Exists L fuel p doc (mkopts (o_vars o) (o_vars_tag o) (o_silent o) (o_useTZ o) (Some k) (o_next_tag o))
+  = Ret (BErr (AErr ECancel)).
+Proof. exact CancelMore.exists_cancel_at_every_poll. Qed.
+Print Assumptions C20_exists_cancelled_at_every_poll.
+
+Theorem C20_match_cancelled_at_every_poll :
+  forall L fuel p doc o k n q0,
+  o_cancel_at o = None -> Match L fuel p doc o = Ret q0 -> polls_of L fuel p doc o (Some []) = Ret n ->
+  (k < n)%nat ->
+  Match L fuel p doc (mkopts (o_vars o) (o_vars_tag o) (o_silent o) (o_useTZ o) (Some k) (o_next_tag o))
+  = Ret (BErr (AErr ECancel)).
+Proof. exact CancelMore.match_cancel_at_every_poll. Qed.
+Print Assumptions C20_match_cancelled_at_every_poll.
+
+Theorem C20_eom_cancelled_at_every_poll :
+  forall L fuel p doc o k n q0,
+  o_cancel_at o = None -> ExistsOrMatch L fuel p doc o = Ret q0 ->
+  polls_of L fuel p doc o (if p_pred p then Some [] else None) = Ret n ->
+  (k < n)%nat ->
+  ExistsOrMatch L fuel p doc (mkopts (o_vars o) (o_vars_tag o) (o_silent o) (o_useTZ o) (Some k) (o_next_tag o))
+  = Ret (BErr (AErr ECancel)).
+Proof. exact CancelMore.eom_cancel_at_every_poll. Qed.
+Print Assumptions C20_eom_cancelled_at_every_poll.
+
+(* cancelling at or after the last poll changes nothing *)
+Theorem C20_query_cancel_after_last_poll :
+  forall L fuel p doc o k n q0,
+  o_cancel_at o = None -> Query L fuel p doc o = Ret q0 -> polls_of L fuel p doc o (Some []) = Ret n ->
+  (n <= k)%nat ->
+  Query L fuel p doc (mkopts (o_vars o) (o_vars_tag o) (o_silent o) (o_useTZ o) (Some k) (o_next_tag o))
+  = Ret q0.
+Proof. exact CancelMore.query_cancel_after_last_poll. Qed.
+Print Assumptions C20_query_cancel_after_last_poll.
+
+(* the same on query(), the common part of the entry points, with the poll count *)
+Theorem C20_query_cancelled_within :
+  forall L fuel p doc o vals k r s',
+  o_cancel_at o = None -> query L fuel p doc o vals = Ret (r, s') -> (k < polls s')%nat ->
+  exists rk sk',
+    query L fuel p doc (mkopts (o_vars o) (o_vars_tag o) (o_silent o) (o_useTZ o) (Some k) (o_next_tag o)) vals
+    = Ret (rk, sk') /\
+    polls sk' = S k /\ r_st rk = SFailed /\ r_err rk = Some ECancel.
+Proof. exact CancelMore.query_cancel_within. Qed.
+Print Assumptions C20_query_cancelled_within.
+
+Theorem C20_query_cancel_beyond :
+  forall L fuel p doc o vals k r s',
+  o_cancel_at o = None -> query L fuel p doc o vals = Ret (r, s') -> (polls s' <= k)%nat ->
+  query L fuel p doc (mkopts (o_vars o) (o_vars_tag o) (o_silent o) (o_useTZ o) (Some k) (o_next_tag o)) vals
+  = Ret (r, s').
+Proof. exact CancelMore.query_cancel_beyond. Qed.
+Print Assumptions C20_query_cancel_beyond.
+
+(* ---------- a bounded number of further steps: polling stops ---------- *)
+(* an entry point makes at most k + 1 polls *)
+Theorem C20_query_polls_stop :
+  forall L fuel p doc o vals k r s',
+  o_cancel_at o = Some k -> query L fuel p doc o vals = Ret (r, s') -> (polls s' <= S k)%nat.
+Proof. exact CancelMore.query_polls_stop. Qed.
+Print Assumptions C20_query_polls_stop.
+
+(* a run that reaches poll k makes exactly k + 1 polls and returns the cancellation *)
+Theorem C20_query_cancel_exact :
+  forall L fuel p doc o vals k r s',
+  o_cancel_at o = Some k -> query L fuel p doc o vals = Ret (r, s') -> (k < polls s')%nat ->
+  polls s' = S k /\ r_st r = SFailed /\ r_err r = Some ECancel.
+Proof. exact CancelMore.query_cancel_exact. Qed.
+Print Assumptions C20_query_cancel_exact.
+
+(* every call of the executor, whatever its entry state *)
+Theorem C20_polls_bound :
+  forall L E fuel r s a s' k, e_cancel_at E = Some k ->
+  run L E fuel r s = Ret (a, s') -> (polls s' <= Nat.max (S (polls s)) (S k))%nat.
+Proof. exact CancelMore.polls_bound. Qed.
+Print Assumptions C20_polls_bound.
+
+(* entered before the cancellation point has been passed: no poll after number k *)
+Theorem C20_polls_stop_entered_before :
+  forall L E fuel r s a s' k, e_cancel_at E = Some k ->
+  run L E fuel r s = Ret (a, s') -> (polls s <= k)%nat ->
+  (polls s' <= Nat.max (polls s) (S k))%nat.
+Proof. exact CancelMore.polls_stop_partial. Qed.
+Print Assumptions C20_polls_stop_entered_before.
+
+(* entered after it: at most one poll, and then the result is the cancellation *)
+Theorem C20_polls_stop_entered_after :
+  forall L E fuel r s a s' k, e_cancel_at E = Some k ->
+  run L E fuel r s = Ret (a, s') -> (k < polls s)%nat ->
+  polls s' = polls s \/
+  (polls s' = S (polls s) /\
+   match a with
+   | AItem x => r_st x = SFailed /\ r_err x = Some ECancel
+   | ABool p => p_out p = PUnknown /\ p_err p = Some ECancel
+   end).
+Proof. exact CancelMore.polls_stop_entry_done. Qed.
+Print Assumptions C20_polls_stop_entered_after.
+
+(* the naive bound is false for a call entered after the cancellation point *)
+Example C20_polls_stop_refuted :
+  let E := mkenv true JNull [] 0 false (Some 0%nat) in
+  let s := mkst JNull (-1) true true 0 0 1 5%nat 100 in
+  exists a s', run Invariants.L_triv E 1 (RItem [] JNull None false) s = Ret (a, s') /\
+               e_cancel_at E = Some 0%nat /\
+               polls s = 5%nat /\ polls s' = 6%nat /\
+               ~ (polls s' <= Nat.max (polls s) (S 0))%nat.
+Proof. exact CancelMore.polls_stop_refuted. Qed.
+Print Assumptions C20_polls_stop_refuted.
 
 (* ---------- a cancelled run still returns, within the fuel bound of C05 ---------- *)
 Theorem C20_query_returns :
